@@ -181,8 +181,9 @@ package ice
 //@   props C11 C16
 //@   opt nosafety
 //@   loop 1 invariant not-found-so-far: rangeindex + 1 <= len(c.extensions) && c.extensions == old(c.extensions) && forall j int :: 0 <= j && j <= rangeindex ==> c.extensions[j].Key != ext.Key
-//@   ensures only-an-empty-key-or-an-unknown-tcp-type-is-refused: ext.Key != "" && ext.Key != "tcptype" ==> result == nil
-//@   ensures an-accepted-extension-is-stored-with-its-value: ext.Key != "" && ext.Key != "tcptype" ==> exists j int :: 0 <= j && j < len(c.extensions) && c.extensions[j].Key == ext.Key && c.extensions[j].Value == ext.Value
+//@   ensures only-an-empty-key-the-reserved-raddr-or-an-unknown-tcp-type-is-refused: ext.Key != "" && ext.Key != "tcptype" && ext.Key != "raddr" ==> result == nil
+//@   ensures C16 a-key-the-parser-would-read-as-the-related-address-is-refused: ext.Key == "raddr" ==> result != nil && c.extensions == old(c.extensions)
+//@   ensures an-accepted-extension-is-stored-with-its-value: ext.Key != "" && ext.Key != "tcptype" && ext.Key != "raddr" ==> exists j int :: 0 <= j && j < len(c.extensions) && c.extensions[j].Key == ext.Key && c.extensions[j].Value == ext.Value
 //@ func (*Agent).setCandidateExtensions
 //@   props C11
 //@   opt nosafety
